@@ -274,3 +274,92 @@ Proof.
   pose proof (entries_within P fs fuel [] Hcl Hall f c Hin Hr) as Hm.
   cbn [matches existsb] in Hm. discriminate Hm.
 Qed.
+
+(* ---------- the under-approximation exhibits real outcomes ---------- *)
+Definition dsound (P : prog) (cur : option cls) (t : tm) (r : dres) : Prop :=
+  (fst r = true -> eval P cur t ONormal) /\ (forall c, In c (snd r) -> eval P cur t (OExc c)).
+
+Lemma def_tm_sound P (call : fname -> dres) :
+  (forall cur f, dsound P cur (Call f) (call f)) ->
+  forall t cur, dsound P cur t (def_tm P call cur t).
+Proof.
+  intros Hcall. induction t as [ | c | | p | f | a IHa b IHb | a IHa b IHb | a IHa | b IHb d IHd | cs h IHh rest IHr | b IHb f IHf];
+    intros cur; cbn [def_tm].
+  - split; cbn [fst snd]; [intros _; constructor | intros c []].
+  - split; cbn [fst snd]; [discriminate | intros c0 [E|[]]; subst; constructor].
+  - destruct cur as [c|]; split; cbn [fst snd]; try discriminate.
+    + intros c0 [E|[]]. subst. constructor.
+    + intros c0 [].
+  - split; cbn [fst snd]; [intros _; constructor|].
+    intros c Hin. eapply E_prim_exc; [exact Hin | apply sub_refl].
+  - apply Hcall.
+  - destruct (IHa cur) as [Han Hae]. destruct (IHb cur) as [Hbn Hbe].
+    split; cbn [fst snd].
+    + intros H. apply andb_true_iff in H. destruct H as [Ha Hb]. eapply E_seq_n; [apply Han; exact Ha | apply Hbn; exact Hb].
+    + intros c Hin. apply in_app_or in Hin. destruct Hin as [Hin|Hin].
+      * apply E_seq_e. apply Hae. exact Hin.
+      * destruct (fst (def_tm P call cur a)) eqn:Ea; [|destruct Hin].
+        eapply E_seq_n; [apply Han; reflexivity | apply Hbe; exact Hin].
+  - destruct (IHa cur) as [Han Hae]. destruct (IHb cur) as [Hbn Hbe].
+    split; cbn [fst snd].
+    + intros H. apply orb_true_iff in H. destruct H as [Ha|Hb]; [apply E_branch_l; apply Han; exact Ha | apply E_branch_r; apply Hbn; exact Hb].
+    + intros c Hin. apply in_app_or in Hin. destruct Hin as [Hin|Hin]; [apply E_branch_l; apply Hae; exact Hin | apply E_branch_r; apply Hbe; exact Hin].
+  - destruct (IHa cur) as [Han Hae]. split; cbn [fst snd].
+    + intros _. constructor.
+    + intros c Hin. apply E_loop_e. apply Hae. exact Hin.
+  - destruct (IHb cur) as [Hbn Hbe]. split; cbn [fst snd].
+    + intros H. apply orb_true_iff in H. destruct H as [Hb|Hd].
+      * apply E_catch_n. apply Hbn. exact Hb.
+      * apply existsb_exists in Hd. destruct Hd as (c & Hc & Hdn).
+        eapply E_catch_e; [apply Hbe; exact Hc | apply (IHd (Some c)); exact Hdn].
+    + intros c Hin. apply in_flat_map in Hin. destruct Hin as (k & Hk & Hin).
+      eapply E_catch_e; [apply Hbe; exact Hk | apply (IHd (Some k)); exact Hin].
+  - destruct cur as [c|].
+    + destruct (matches P c cs) eqn:M.
+      * destruct (IHh (Some c)) as [Hn He]. split.
+        -- intros H. apply E_match_y; [exact M | apply Hn; exact H].
+        -- intros c0 Hin. apply E_match_y; [exact M | apply He; exact Hin].
+      * destruct (IHr (Some c)) as [Hn He]. split.
+        -- intros H. apply E_match_n; [exact M | apply Hn; exact H].
+        -- intros c0 Hin. apply E_match_n; [exact M | apply He; exact Hin].
+    + destruct (IHr None) as [Hn He]. split.
+      * intros H. apply E_match_none. apply Hn. exact H.
+      * intros c0 Hin. apply E_match_none. apply He. exact Hin.
+  - destruct (IHb cur) as [Hbn Hbe]. destruct (IHf cur) as [Hfn Hfe].
+    split; cbn [fst snd].
+    + intros H. apply andb_true_iff in H. destruct H as [Hb Hf]. eapply E_fin_n; [apply Hbn; exact Hb | apply Hfn; exact Hf].
+    + intros c Hin. apply in_app_or in Hin. destruct Hin as [Hin|Hin].
+      * destruct (fst (def_tm P call cur f)) eqn:Ef; [|destruct Hin].
+        apply E_fin_e; [apply Hbe; exact Hin | apply Hfn; reflexivity].
+      * destruct (fst (def_tm P call cur b)) eqn:Eb; cbn [orb] in Hin.
+        -- eapply E_fin_n; [apply Hbn; reflexivity | apply Hfe; exact Hin].
+        -- destruct (snd (def_tm P call cur b)) as [|k ks] eqn:Es; cbn [is_nil negb] in Hin; [destruct Hin|].
+           eapply E_fin_ee; [apply Hbe; left; reflexivity | apply Hfe; exact Hin].
+Qed.
+
+Lemma definite_sound P : forall n cur f, dsound P cur (Call f) (definite P f n).
+Proof.
+  induction n as [|n IH]; intros cur f; cbn [definite].
+  - split; cbn [fst snd]; [discriminate | intros c []].
+  - destruct (assoc f (funs P)) as [body|] eqn:Ea.
+    + destruct (def_tm_sound P (fun g => definite P g n) (fun cur0 g => IH cur0 g) body None) as [Hn He].
+      split.
+      * intros H. eapply E_call; [exact Ea | apply Hn; exact H].
+      * intros c Hin. eapply E_call; [exact Ea | apply He; exact Hin].
+    + split; cbn [fst snd]; [discriminate | intros c []].
+Qed.
+
+(* a class computed by [definite] really can leave the function *)
+Theorem definite_raises P f fuel c : In c (snd (definite P f fuel)) -> raises P f c.
+Proof. intros H. unfold raises. destruct (definite_sound P fuel None f) as [_ He]. apply He. exact H. Qed.
+
+Definition all_live (P : prog) (fs : list fname) (fuel : nat) : bool :=
+  forallb (fun f => negb (is_nil (snd (definite P f fuel)))) fs.
+
+Theorem entries_live P fs fuel :
+  all_live P fs fuel = true -> forall f, In f fs -> exists c, raises P f c.
+Proof.
+  intros H f Hin. unfold all_live in H. rewrite forallb_forall in H. specialize (H f Hin).
+  destruct (snd (definite P f fuel)) as [|c r] eqn:E; [discriminate H|].
+  exists c. apply (definite_raises P f fuel). rewrite E. left. reflexivity.
+Qed.
